@@ -31,6 +31,7 @@ type Trouble struct{ Msg string }
 // Hold keeps the Nth goroutine arriving at a lock site matching Sig parked.
 type Hold struct {
 	Sig      string // substring of the site signature
+	Need     string // when set: only goroutines with a frame whose function name contains this count
 	Nth      int    // 1-based occurrence
 	Steps    int    // release after this many external steps (0 = only explicit)
 	Seen     int
@@ -84,6 +85,7 @@ type Run struct {
 
 	afterSettle func()
 	Sites       []string // lock-site inventory of the current tree (sorted)
+	ForceSite   string   // debugging aid: every hold of the run is put at this site
 	Known       string
 	Desc        string
 
@@ -206,6 +208,9 @@ func (r *Run) DisableHolds() {
 
 // AddHold registers a hold.
 func (r *Run) AddHold(sig string, nth, steps int) *Hold {
+	if r.ForceSite != "" {
+		sig = r.ForceSite // debugging aid (verif job ... holdsite=<index into the inventory, 1-based>)
+	}
 	h := &Hold{Sig: sig, Nth: nth, Steps: steps}
 	r.Holds = append(r.Holds, h)
 	return h
@@ -228,8 +233,13 @@ func (r *Run) classify(ws []*simsync.Waiter) {
 		}
 		w.Tag = "seen"
 		w.Since = int64(r.Stats.SchedSteps)
+		if r.Sched.UnlockYield && !w.PostUnlock {
+			// unlock-yield pass: goroutines are held where they have just released a lock (the main pass holds them
+			// where they ask for one)
+			continue
+		}
 		for _, h := range r.Holds {
-			if h.Done || !strings.Contains(w.Sig, h.Sig) {
+			if h.Done || !strings.Contains(w.Sig, h.Sig) || h.Need != "" && !w.StackHas(h.Need) {
 				continue
 			}
 			h.Seen++
